@@ -801,6 +801,14 @@ class Interp:
             for v in e.values:
                 if isinstance(v, ast.FormattedValue):
                     self.ev(v.value, env, cx)
+                    # a format specification is interpreted by the value's type: `{x:.16}` is a ValueError for an int, a TypeError
+                    # for None / a list / a dict — harmless only where the value is known to be text or a number of the right kind
+                    spec = v.format_spec
+                    if spec is not None and isinstance(spec, ast.JoinedStr) and spec.values and v.conversion == -1:
+                        vt = self.types.expr(v.value, cx.scope)
+                        if not all(m[0] == 'b' and m[1] in ('str', 'float') for m in members(vt)):
+                            for cls_ in ('TypeError', 'ValueError'):
+                                cx.raised.append((cls_, self._w(cx, f'{norm(v.value)[:40]} formatted with a format specification', env, okey='format')))
             return K_FT
         if isinstance(e, (ast.List, ast.Tuple, ast.Set)):
             for x in e.elts:
